@@ -47,7 +47,35 @@ def jobs(tier, seed):
                     out.append({"id": f"{rom}/{mn}/back{k}/{'reloc' if reloc else 'plain'}", "rom": rom, "mn": mn, "kind": "back", "k": k, "reloc": reloc})
                 for k in FWD:
                     out.append({"id": f"{rom}/{mn}/fwd{k}/{'reloc' if reloc else 'plain'}", "rom": rom, "mn": mn, "kind": "fwd", "k": k, "reloc": reloc})
+        # branches inside constructs: local label of a macro applied twice, loop iterations, a label
+        # exported by a named scope, a block
+        for mn in label_mns[:1] if tier == "quick" else label_mns:
+            for w in WRAPPED:
+                for k in (0, 126, 127):
+                    for reloc in (False, True):
+                        out.append({"id": f"{rom}/{mn}/{w}{k}/{'reloc' if reloc else 'plain'}", "rom": rom, "mn": mn, "kind": w, "k": k, "reloc": reloc})
     return out
+
+
+WRAPPED = ("macro-twice", "loop", "named-scope", "block")
+
+
+def wrapped_source(kind, mn, k):
+    """(source after the position lines, total size, [(branch offset, target offset)]) -- offsets from the first byte."""
+    f = filler(k)
+    if kind == "macro-twice":
+        src = ".macro bm() {\nlp:\n" + f + f"{mn} lp\n}}\nbm()\nbm()\n"
+        return src, 2 * (k + 2), [(k, 0), (k + 2 + k, k + 2)]
+    if kind == "loop":
+        src = ".for i := 0, 2 {\nlp:\n" + f + f"{mn} lp\n}}\n"
+        return src, 2 * (k + 2), [(k, 0), (k + 2 + k, k + 2)]
+    if kind == "named-scope":
+        src = f"{mn} ns.tgt\n" + f + ".scope ns {\nnop\ntgt:\n}\n"
+        return src, 2 + k + 1, [(0, 2 + k + 1)]
+    if kind == "block":
+        src = "{\nlp:\n{\n" + f + f"{mn} lp\n}}\n}}\n"
+        return src, k + 2, [(k, 0)]
+    raise ValueError(kind)
 
 
 def filler(k):
@@ -72,12 +100,31 @@ def run(spec, cx):
         src += f"{mn} t\n"
     elif spec["kind"] == "back":
         src += "target:\n" + filler(spec["k"]) + f"{mn} target\n"
+    elif spec["kind"] in WRAPPED:
+        src += wrapped_source(spec["kind"], mn, spec["k"])[0]
     else:
         src += f"{mn} target\n" + filler(spec["k"]) + "target:\n"
     r = assemble(src, syms, rom=spec["rom"])
     if r[0] == "ok":
         return ("ok", [(a, b) for a, b in r[1]])
     return ("rejected", "error-string" if r[0] == "error" else type(r[1]).__name__)
+
+
+def check_wrapped(spec, cx, out, R0, isrom, base):
+    _, total, branches = wrapped_source(spec["kind"], spec["mn"], spec["k"])
+    run_ok = z3.And(isrom(R0), (R0 & 0xFFFF) >= base, (R0 & 0xFFFF) + total <= 0xFFFF)
+    ram = is_ram(R0)
+    all_in_range = all(-128 <= t - (b + 2) <= 127 for b, t in branches)
+    if out[0] != "ok":
+        return [("in-range-branch-is-encoded", z3.Not(z3.And(run_ok, z3.BoolVal(all_in_range))))]
+    blocks = out[1]
+    if len(blocks) != 1 or len(blocks[0][1]) != total:
+        return [("emits-exactly-the-branches", z3.Not(z3.Or(run_ok, ram)))]
+    bs = blist(blocks[0][1])
+    conds = [z3.BoolVal(all_in_range)]
+    for b, t in branches:
+        conds += [bs[b] == BRANCHES[spec["mn"]], bs[b + 1] == ((t - (b + 2)) & 0xFF)]
+    return [("encodes-true-displacement", z3.Implies(run_ok, z3.And(*conds))), ("ram-branch-rejected", z3.Not(ram))]
 
 
 def check(spec, cx, out):
@@ -87,6 +134,8 @@ def check(spec, cx, out):
     p = cx.t("p")
     R0 = cx.t("r") if spec["reloc"] else p  # run address of the first byte
     kind, k = spec["kind"], spec.get("k", 0)
+    if kind in WRAPPED:
+        return check_wrapped(spec, cx, out, R0, isrom, base)
     if kind == "sym":
         R, t = R0, cx.t("t")
     elif kind == "back":
